@@ -180,6 +180,9 @@ func (r *Replacer) replace(input, empty string,
 	// fail fast if too many placeholders are unclosed
 	var unclosedCount int
 
+	// the closing brace found for the previous opening brace (-1: none yet)
+	lastEnd := -1
+
 scan:
 	for i := 0; i < len(input); i++ {
 		// check for escaped braces
@@ -200,21 +203,30 @@ scan:
 			return "", fmt.Errorf("too many unclosed placeholders")
 		}
 
-		// find the end of the placeholder
-		end := strings.Index(input[i:], string(phClose)) + i
-		if end < i {
-			unclosedCount++
-			continue
-		}
-
-		// if necessary look for the first closing brace that is not escaped
-		for end > 0 && end < len(input)-1 && input[end-1] == phEscape {
-			nextEnd := strings.Index(input[end+1:], string(phClose))
-			if nextEnd < 0 {
+		// find the end of the placeholder; the closing brace found for an
+		// opening brace at i0 is the first one behind i0 that is not skipped
+		// as escaped, so it is also the result for every opening brace between
+		// i0 and it: reuse it. Without this, a run of unknown placeholders
+		// that are kept ("{{{{...}") searches for the same closing brace from
+		// every opening brace, which takes quadratic time.
+		end := lastEnd
+		if end <= i {
+			end = strings.Index(input[i:], string(phClose)) + i
+			if end < i {
 				unclosedCount++
-				continue scan
+				continue
 			}
-			end += nextEnd + 1
+
+			// if necessary look for the first closing brace that is not escaped
+			for end > 0 && end < len(input)-1 && input[end-1] == phEscape {
+				nextEnd := strings.Index(input[end+1:], string(phClose))
+				if nextEnd < 0 {
+					unclosedCount++
+					continue scan
+				}
+				end += nextEnd + 1
+			}
+			lastEnd = end
 		}
 
 		// write the substring from the last cursor to this point
